@@ -189,6 +189,7 @@ macro_rules! forms_s {
             guarded(|| a * c),
             guarded(|| a.clone() * c.clone()),
             guarded(|| a.clone() * c),
+            guarded(|| a * c.clone()),
             guarded(|| { let mut t = a.clone(); t *= c; t }),
             guarded(|| { let mut t = a.clone(); t *= c.clone(); t }),
         ]
@@ -1377,9 +1378,9 @@ fn gen_poly(r: &mut Rng, rt: RT, mt: MT, small: bool) -> String {
         1 + r.below(3) as usize
     } else {
         match r.below(100) {
-            0..=14 => 1,
-            15..=64 => 2 + r.below(3) as usize,
-            65..=89 => 5 + r.below(6) as usize,
+            0..=9 => 1,
+            10..=49 => 2 + r.below(3) as usize,
+            50..=81 => 5 + r.below(6) as usize,
             _ => 11 + r.below(30) as usize,
         }
     };
@@ -1509,7 +1510,745 @@ fn sh_ok(rt: RT, mt: MT, s: &mut Sh) -> bool {
     s.t <= 64 && s.e <= 60 && s.b <= rt.blim() && bitlen(s.d) <= rt.dlim().max(1)
 }
 
-//@@GENERATOR2@@
+// ---------- program builder ----------
+struct PB {
+    rt: RT,
+    mt: MT,
+    sh: Vec<Sh>,
+    line: String,
+}
+impl PB {
+    fn new(rt: RT, mt: MT, nregs: usize) -> PB {
+        PB { rt, mt, sh: vec![SH_ZERO; nregs], line: format!("prog {} {} {}", rt.tag(), mt.tag(), nregs) }
+    }
+    /// the shadow of the destination after a mutating op; None = does not fit / not applicable
+    fn shadow_after(&self, a: &[&str]) -> Option<Sh> {
+        let (rt, mt) = (self.rt, self.mt);
+        let reg = |s: &str| -> Sh { self.sh[s.parse::<usize>().unwrap()] };
+        let mut s = match a[0] {
+            "set" => sh_poly(rt, a[2])?,
+            "add" | "sub" => sh_add(rt, reg(a[2]), reg(a[3]))?,
+            "neg" => reg(a[2]),
+            "smul" => sh_smul(rt, reg(a[2]), a[3])?,
+            "mul" if mt.is_poly() => sh_mul(rt, reg(a[2]), reg(a[3]))?,
+            "lmul" => sh_mul(rt, reg(a[2]), reg(a[3]))?,
+            "pow" if mt.is_poly() => {
+                let n: usize = a[3].parse().unwrap();
+                let mut s = SH_ONE;
+                for _ in 0..n {
+                    s = sh_mul(rt, s, reg(a[2]))?;
+                    if !sh_ok(rt, mt, &mut s) {
+                        return None;
+                    }
+                }
+                s
+            }
+            "mapg" | "filt" if mt == MT::Fr => {
+                if a[3].parse::<i64>().unwrap() <= 0 {
+                    return None;
+                }
+                let x = reg(a[2]);
+                Sh { e: x.e + 1, ..x }
+            }
+            "appl" if mt == MT::Fr => {
+                let x = reg(a[2]);
+                Sh { t: 2 * x.t, e: x.e + a[3].parse::<i64>().unwrap().unsigned_abs(), b: x.b + 1, d: x.d }
+            }
+            _ => return None,
+        };
+        if sh_ok(rt, mt, &mut s) { Some(s) } else { None }
+    }
+    fn observer_ok(&self, a: &[&str]) -> bool {
+        let (rt, mt) = (self.rt, self.mt);
+        match a[0] {
+            "eq" | "coef" | "asmono" => true,
+            "inv" | "unit" | "nunit" => mt.is_poly() && rt.has_units(),
+            "ltf" => mt.is_n(),
+            "ev" => {
+                if !matches!(rt, RT::Zi | RT::Zb) || !matches!(mt, MT::U1 | MT::U2 | MT::U3) {
+                    return false;
+                }
+                let pts: Vec<&str> = a[2].split(',').collect();
+                if pts.len() != mt.slots() {
+                    return false;
+                }
+                let s = self.sh[a[1].parse::<usize>().unwrap()];
+                let pb = pts.iter().map(|p| if matches!(*p, "0" | "1" | "-1") { 0 } else { dec_bits(p) }).max().unwrap();
+                let total = s.b as u64 + pb as u64 * s.e * mt.slots() as u64;
+                total <= if rt == RT::Zi { 60 } else { 1500 }
+            }
+            _ => false,
+        }
+    }
+    /// validate one op group against the shadow; append it when it fits
+    fn op(&mut self, text: &str) -> bool {
+        let a: Vec<&str> = text.split_whitespace().collect();
+        debug_assert!(a.len() == op_arity(a[0]));
+        match a[0] {
+            "eq" | "coef" | "asmono" | "inv" | "unit" | "nunit" | "ev" | "ltf" => {
+                if !self.observer_ok(&a) {
+                    return false;
+                }
+            }
+            _ => match self.shadow_after(&a) {
+                Some(s) => self.sh[a[1].parse::<usize>().unwrap()] = s,
+                None => return false,
+            },
+        }
+        self.line.push(' ');
+        self.line.push_str(&a.join(" "));
+        true
+    }
+}
+
+fn rand_observer(r: &mut Rng, pb: &mut PB) {
+    let n = pb.sh.len() as u64;
+    let (rt, mt) = (pb.rt, pb.mt);
+    let a = r.below(n);
+    // applicable observers, the rarely applicable ones (ev, ltf) with a higher weight
+    let mut kinds: Vec<&str> = vec!["eq", "eq", "coef", "coef", "asmono"];
+    if mt.is_poly() && rt.has_units() {
+        kinds.extend(["inv", "unit", "nunit"]);
+    }
+    if mt.is_n() {
+        kinds.extend(["ltf", "ltf", "ltf"]);
+    }
+    if matches!(rt, RT::Zi | RT::Zb) && matches!(mt, MT::U1 | MT::U2 | MT::U3) {
+        kinds.extend(["ev", "ev", "ev", "ev"]);
+    }
+    let text = match *r.pick(&kinds) {
+        "eq" => format!("eq {} {}", a, r.below(n)),
+        "coef" => {
+            let v = gen_mono_vec(r, mt, true);
+            format!("coef {} {}", a, spell(r, mt, &v, true))
+        }
+        "ev" => {
+            let pts: Vec<String> = (0..mt.slots())
+                .map(|_| if rt == RT::Zb && r.chance(1, 8) { big_dec(r, 5, 25) } else { r.range(-3, 3).to_string() })
+                .collect();
+            let t = format!("ev {} {}", a, pts.join(","));
+            if pb.op(&t) {
+                return;
+            }
+            // the bound does not allow these points: evaluate at a point of {0, 1, -1}^n
+            let pts: Vec<String> = (0..mt.slots()).map(|_| r.range(-1, 1).to_string()).collect();
+            format!("ev {} {}", a, pts.join(","))
+        }
+        "ltf" => format!("ltf {} {}", a, r.below(NIDX as u64 + 1)),
+        k => format!("{} {}", k, a),
+    };
+    if !pb.op(&text) {
+        pb.op(&format!("eq {} {}", a, r.below(n)));
+    }
+}
+
+fn rand_prog(r: &mut Rng, rt: RT, mt: MT) -> String {
+    let nregs = 2 + r.below(4) as usize;
+    let mut pb = PB::new(rt, mt, nregs);
+    let n = nregs as u64;
+    let maxops = if r.chance(1, 3) { 25 } else { 12 };
+    let nops = 1 + r.below(maxops) as usize;
+    // most registers are loaded first (the others stay zero)
+    for d in 0..nregs {
+        if r.chance(3, 4) {
+            let small = r.chance(1, 2);
+            let p = gen_poly(r, rt, mt, small);
+            if !pb.op(&format!("set {} {}", d, p)) {
+                pb.op(&format!("set {} {}", d, gen_poly(r, rt, mt, true)));
+            }
+        }
+    }
+    for _ in 0..nops {
+        let d = r.below(n);
+        let a = r.below(n);
+        let b = if r.chance(1, 3) { a } else { r.below(n) };
+        let w = r.below(100);
+        let text = if w < 14 {
+            let small = r.bool();
+            format!("set {} {}", d, gen_poly(r, rt, mt, small))
+        } else if w < 29 {
+            format!("add {} {} {}", d, a, b)
+        } else if w < 43 {
+            format!("sub {} {} {}", d, a, b)
+        } else if w < 50 {
+            format!("neg {} {}", d, a)
+        } else if w < 61 {
+            let c = if r.chance(1, 3) { c_int(rt, r.range(-1, 1)) } else { gen_coef(r, rt) };
+            format!("smul {} {} {}", d, a, c)
+        } else if w < 70 {
+            format!("lmul {} {} {}", d, a, b)
+        } else if mt.is_poly() {
+            if w < 90 { format!("mul {} {} {}", d, a, b) } else { format!("pow {} {} {}", d, a, r.below(5)) }
+        } else if w < 80 {
+            format!("mapg {} {} {}", d, a, r.range(1, 4))
+        } else if w < 90 {
+            format!("filt {} {} {}", d, a, r.range(1, 4))
+        } else {
+            format!("appl {} {} {}", d, a, r.range(-3, 3))
+        };
+        if !pb.op(&text) {
+            let p = gen_poly(r, rt, mt, true);
+            if !pb.op(&format!("set {} {}", d, p)) {
+                pb.op(&format!("set {} 0", d));
+            }
+        }
+        if r.chance(1, 3) {
+            rand_observer(r, &mut pb);
+        }
+    }
+    pb.line
+}
+
+/// cancellation templates; register 5 is never written (the zero value)
+const NTEMPLATES: u64 = 18;
+fn template(r: &mut Rng, rt: RT, mt: MT, which: u64) -> Option<String> {
+    let mut pb = PB::new(rt, mt, 6);
+    let poly = mt.is_poly();
+    let one = format!("{}@{}", unit_mono(mt), c_int(rt, 1));
+    let a = gen_poly(r, rt, mt, true);
+    let b = gen_poly(r, rt, mt, true);
+    let c = gen_poly(r, rt, mt, true);
+    macro_rules! op {
+        ($($arg:tt)*) => { pb.op(&format!($($arg)*)) };
+    }
+    match which {
+        0 => {
+            // p - p
+            op!("set 0 {}", if r.chance(1, 3) { gen_poly(r, rt, mt, false) } else { a });
+            op!("sub 1 0 0");
+            op!("eq 1 5");
+            op!("add 2 0 1");
+            op!("eq 2 0");
+            op!("sub 0 0 0");
+            op!("eq 0 5");
+        }
+        1 => {
+            // p + (-p)
+            op!("set 0 {}", if r.chance(1, 3) { gen_poly(r, rt, mt, false) } else { a });
+            op!("neg 1 0");
+            op!("add 2 0 1");
+            op!("eq 2 5");
+            op!("add 3 1 0");
+            op!("eq 3 2");
+            op!("neg 4 1");
+            op!("eq 4 0");
+        }
+        2 if poly => {
+            // p * 0, 0 * p
+            op!("set 0 {}", a);
+            op!("mul 1 0 5");
+            op!("mul 2 5 0");
+            op!("eq 1 2");
+            op!("eq 1 5");
+            op!("lmul 3 0 5");
+            op!("eq 3 5");
+            op!("lmul 3 5 0");
+            op!("mul 4 5 5");
+        }
+        3 if poly => {
+            // p * 1, 1 * p
+            op!("set 0 {}", a);
+            op!("set 1 {}", one);
+            op!("mul 2 0 1");
+            op!("mul 3 1 0");
+            op!("eq 2 0");
+            op!("eq 3 0");
+            op!("lmul 4 0 1");
+            op!("eq 4 0");
+            op!("mul 4 1 1");
+            op!("eq 4 1");
+        }
+        4 if poly => {
+            // p * const, const * p
+            let k = match r.below(5) {
+                0 => c_int(rt, 0),
+                1 => c_int(rt, 1),
+                2 => c_int(rt, -1),
+                _ => small_coef(r, rt),
+            };
+            op!("set 0 {}", a);
+            op!("set 1 {}@{}", unit_mono(mt), k);
+            op!("mul 2 0 1");
+            op!("mul 3 1 0");
+            op!("eq 2 3");
+            op!("smul 4 0 {}", k);
+            op!("eq 2 4");
+            op!("lmul 4 1 0");
+            op!("eq 4 3");
+            op!("set 0 {}@{}", unit_mono(mt), small_coef(r, rt));
+            op!("mul 2 0 1");
+            op!("mul 3 1 0");
+            op!("eq 2 3");
+        }
+        5 if poly => {
+            // (a+b)(a-b) - a*a + b*b
+            op!("set 0 {}", a);
+            op!("set 1 {}", b);
+            op!("add 2 0 1");
+            op!("sub 3 0 1");
+            op!("mul 2 2 3");
+            op!("mul 3 0 0");
+            op!("sub 2 2 3");
+            op!("mul 3 1 1");
+            op!("add 2 2 3");
+            op!("eq 2 5");
+        }
+        6 if poly => {
+            // a*b - b*a
+            op!("set 0 {}", a);
+            op!("set 1 {}", b);
+            op!("mul 2 0 1");
+            op!("mul 3 1 0");
+            op!("eq 2 3");
+            op!("sub 4 2 3");
+            op!("eq 4 5");
+        }
+        7 if poly => {
+            // (a*b)*c - a*(b*c)
+            op!("set 0 {}", a);
+            op!("set 1 {}", b);
+            op!("set 2 {}", c);
+            op!("mul 3 0 1");
+            op!("mul 3 3 2");
+            op!("mul 4 1 2");
+            op!("mul 4 0 4");
+            op!("eq 3 4");
+            op!("sub 3 3 4");
+            op!("eq 3 5");
+        }
+        8 if poly => {
+            // a*(b+c) - a*b - a*c
+            op!("set 0 {}", a);
+            op!("set 1 {}", b);
+            op!("set 2 {}", c);
+            op!("add 3 1 2");
+            op!("mul 3 0 3");
+            op!("mul 4 0 1");
+            op!("sub 3 3 4");
+            op!("mul 4 0 2");
+            op!("sub 3 3 4");
+            op!("eq 3 5");
+        }
+        9 if poly => {
+            // (a+b)^2 - a^2 - 2ab - b^2
+            op!("set 0 {}", a);
+            op!("set 1 {}", b);
+            op!("add 2 0 1");
+            op!("pow 2 2 2");
+            op!("pow 3 0 2");
+            op!("sub 2 2 3");
+            op!("mul 3 0 1");
+            op!("smul 3 3 {}", c_int(rt, 2));
+            op!("sub 2 2 3");
+            op!("pow 3 1 2");
+            op!("sub 2 2 3");
+            op!("eq 2 5");
+        }
+        10 => {
+            // mul vs lmul of the same operands (fr: commutativity of the Lc product)
+            op!("set 0 {}", a);
+            op!("set 1 {}", b);
+            if poly {
+                op!("mul 2 0 1");
+                op!("lmul 3 0 1");
+                op!("eq 2 3");
+                op!("mul 2 0 0");
+                op!("lmul 3 0 0");
+                op!("eq 2 3");
+            } else {
+                op!("lmul 2 0 1");
+                op!("lmul 3 1 0");
+                op!("eq 2 3");
+                op!("lmul 4 0 5");
+                op!("eq 4 5");
+            }
+        }
+        11 if rt == RT::F3 => {
+            // characteristic 3: a+a+a, (a+b)^3 - a^3 - b^3
+            op!("set 0 {}", a);
+            op!("add 1 0 0");
+            op!("add 1 1 0");
+            op!("eq 1 5");
+            op!("smul 1 0 3");
+            op!("eq 1 5");
+            if poly {
+                op!("set 1 {}", b);
+                op!("add 2 0 1");
+                op!("pow 2 2 3");
+                op!("pow 3 0 3");
+                op!("sub 2 2 3");
+                op!("pow 3 1 3");
+                op!("sub 2 2 3");
+                op!("eq 2 5");
+            }
+        }
+        12 if poly => {
+            // (x-1)(1+x+..+x^(n-1)) - x^n + 1
+            let n = r.range(1, 6);
+            let o1 = c_int(rt, 1);
+            let m1 = c_int(rt, -1);
+            op!("set 0 {}@{}+{}@{}", var_pow(mt, 1), o1, unit_mono(mt), m1);
+            let geo: Vec<String> = (0..n).map(|i| format!("{}@{}", var_pow(mt, i), o1)).collect();
+            op!("set 1 {}", geo.join("+"));
+            op!("mul 2 0 1");
+            op!("set 3 {}@{}+{}@{}", var_pow(mt, n), o1, unit_mono(mt), m1);
+            op!("eq 2 3");
+            op!("sub 2 2 3");
+            op!("eq 2 5");
+            op!("lmul 4 1 0");
+            op!("eq 4 3");
+        }
+        13 if poly && mt.signed() => {
+            // Laurent: x * x^-1 = 1, (x + x^-1)^2 - x^2 - x^-2 - 2
+            let o1 = c_int(rt, 1);
+            op!("set 0 {}@{}", var_pow(mt, 1), o1);
+            op!("set 1 {}@{}", var_pow(mt, -1), o1);
+            op!("mul 2 0 1");
+            op!("set 3 {}", one);
+            op!("eq 2 3");
+            op!("inv 0");
+            op!("unit 1");
+            op!("add 2 0 1");
+            op!("pow 2 2 2");
+            op!("set 3 {}@{}+{}@{}+{}@{}", var_pow(mt, 2), o1, var_pow(mt, -2), o1, unit_mono(mt), c_int(rt, 2));
+            op!("sub 2 2 3");
+            op!("eq 2 5");
+        }
+        14 if poly && rt.is_g() => {
+            // (x+i)(x-i) - x^2 - 1
+            op!("set 0 {}@1:0+{}@0:1", var_pow(mt, 1), unit_mono(mt));
+            op!("set 1 {}@1:0+{}@0:-1", var_pow(mt, 1), unit_mono(mt));
+            op!("mul 2 0 1");
+            op!("set 3 {}@1:0+{}@1:0", var_pow(mt, 2), unit_mono(mt));
+            op!("eq 2 3");
+            op!("sub 2 2 3");
+            op!("eq 2 5");
+            op!("smul 4 0 0:1");
+            op!("smul 4 4 0:1");
+            op!("add 4 4 0");
+            op!("eq 4 5");
+        }
+        15 => {
+            // smul by 0, 1, -1 (Q: by c then by 1/c)
+            op!("set 0 {}", if r.chance(1, 3) { gen_poly(r, rt, mt, false) } else { a });
+            op!("smul 1 0 {}", c_int(rt, 0));
+            op!("eq 1 5");
+            op!("smul 2 0 {}", c_int(rt, 1));
+            op!("eq 2 0");
+            op!("smul 3 0 {}", c_int(rt, -1));
+            op!("neg 4 0");
+            op!("eq 3 4");
+            if rt.is_q() {
+                let (p, q) = (r.range(1, 5), r.range(1, 5));
+                let neg = r.bool();
+                op!("smul 1 0 {}{}/{}", if neg { "-" } else { "" }, p, q);
+                op!("smul 1 1 {}{}/{}", if neg { "-" } else { "" }, q, p);
+                op!("eq 1 0");
+            }
+        }
+        16 if poly => {
+            // pow 0 and pow 1
+            op!("set 0 {}", a);
+            op!("pow 1 0 0");
+            op!("set 2 {}", one);
+            op!("eq 1 2");
+            op!("pow 3 0 1");
+            op!("eq 3 0");
+            op!("pow 4 5 0");
+            op!("eq 4 2");
+            op!("pow 4 5 2");
+            op!("eq 4 5");
+            op!("pow 4 2 4");
+            op!("eq 4 2");
+        }
+        17 if !poly => {
+            // map_gens with collisions that cancel, filter_gens, telescoping apply
+            let m = 1 + r.below(4);
+            let mut ts: Vec<String> = vec![];
+            for _ in 0..m {
+                let k = r.range(-5, 5);
+                let co = small_coef(r, rt);
+                ts.push(format!("{}@{}", 2 * k, co));
+                ts.push(format!("{}@{}", 2 * k + 1, c_neg(rt, &co)));
+            }
+            let extra = r.chance(1, 3);
+            if extra {
+                ts.push(format!("{}@{}", r.range(-12, 12), small_coef(r, rt)));
+            }
+            op!("set 0 {}", ts.join("+"));
+            op!("mapg 1 0 2");
+            op!("eq 1 5");
+            op!("filt 2 0 2");
+            op!("filt 3 0 1");
+            op!("eq 3 5");
+            let n = r.range(1, 8);
+            let s0 = r.range(-4, 4);
+            let tel: Vec<String> = (0..n).map(|i| format!("{}@{}", s0 + i, c_int(rt, 1))).collect();
+            op!("set 0 {}", tel.join("+"));
+            op!("appl 1 0 1");
+            op!("set 2 {}@{}+{}@{}", s0 + n, c_int(rt, 1), s0, c_int(rt, -1));
+            op!("eq 1 2");
+            op!("appl 3 0 0");
+            op!("eq 3 5");
+        }
+        _ => return None,
+    }
+    for _ in 0..r.below(3) {
+        rand_observer(r, &mut pb);
+    }
+    Some(pb.line)
+}
+
+// ---------- monomial / MultiDeg cases ----------
+/// a monomial related to `a`: equal, one exponent changed, same total degree, unit, a divisor, unrelated
+fn variant(r: &mut Rng, mt: MT, a: &[i64]) -> Vec<i64> {
+    let n = a.len();
+    let mut b = a.to_vec();
+    match r.below(7) {
+        0 => {}
+        1 => {
+            let i = r.below(n as u64) as usize;
+            b[i] += if r.bool() { 1 } else { -1 };
+            if !mt.signed() && b[i] < 0 {
+                b[i] = 1;
+            }
+        }
+        2 if n >= 2 => {
+            // move one unit of degree from slot i to slot j
+            let i = r.below(n as u64) as usize;
+            let j = r.below(n as u64) as usize;
+            if i != j && (mt.signed() || b[i] > 0) {
+                b[i] -= 1;
+                b[j] += 1;
+            }
+        }
+        3 => b = vec![0; n],
+        4 => {
+            for x in b.iter_mut() {
+                if *x > 0 {
+                    *x = r.range(0, *x);
+                } else if *x < 0 {
+                    *x = r.range(*x, 0);
+                }
+            }
+        }
+        5 => {
+            for x in b.iter_mut() {
+                *x = -*x;
+            }
+            if !mt.signed() {
+                b = a.to_vec();
+                b.reverse();
+            }
+        }
+        _ => {
+            let small = r.bool();
+            b = gen_mono_vec(r, mt, small)
+        }
+    }
+    b
+}
+fn gen_mono_case(r: &mut Rng) -> String {
+    let mt = MONOS[r.below(8) as usize];
+    let small = r.bool();
+    let a = gen_mono_vec(r, mt, small);
+    let b = variant(r, mt, &a);
+    let c = gen_mono_vec(r, mt, true);
+    let sa = spell(r, mt, &a, true);
+    let sb = spell(r, mt, &b, true);
+    let sc = spell(r, mt, &c, true);
+    let multi = mt.slots() > 1;
+    let body = match r.below(if multi { 14 } else { 12 }) {
+        0 => format!("mk {}", sa),
+        1 | 2 => format!("mul {} {}", sa, sb),
+        3 | 4 => format!("div {} {}", sa, sb),
+        5 | 6 => format!("cmp {} {}", sa, sb),
+        7 => format!("cmpmul {} {} {}", sa, sb, sc),
+        8 => format!("unit {}", sb),
+        9 => format!("inv {}", sb),
+        10 => format!("divides {} {}", sb, sa),
+        11 => format!("isone {}", sb),
+        12 => format!("total {}", sa),
+        _ => {
+            let k = if mt.is_n() { r.below(NIDX as u64 + 2) } else { r.below(mt.slots() as u64) };
+            format!("degfor {} {}", sa, k)
+        }
+    };
+    format!("mono {} {}", mt.tag(), body)
+}
+fn gen_mdeg_case(r: &mut Rng) -> String {
+    let signed = r.bool();
+    let mt = if signed { MT::In } else { MT::Un };
+    let small = r.bool();
+    let a = gen_mono_vec(r, mt, small);
+    let b = variant(r, mt, &a);
+    let sa = spell(r, mt, &a, true);
+    let sb = spell(r, mt, &b, true);
+    let body = match r.below(if signed { 13 } else { 12 }) {
+        0 => format!("mk {}", sa),
+        1 => {
+            let n = r.below(6) as usize;
+            let (lo, hi) = exp_range(mt, r.bool());
+            let v: Vec<String> =
+                (0..n).map(|_| if r.chance(1, 3) { "0".to_string() } else { r.range(lo, hi).to_string() }).collect();
+            format!("arr {}", if n == 0 { "-".to_string() } else { v.join(",") })
+        }
+        2 | 3 => {
+            if signed && r.chance(1, 3) {
+                // a + (-a)
+                let na: Vec<i64> = a.iter().map(|x| -x).collect();
+                format!("add {} {}", sa, spell(r, mt, &na, true))
+            } else {
+                format!("add {} {}", sa, sb)
+            }
+        }
+        4 | 5 | 6 => format!("sub {} {}", sa, sb),
+        7 => format!("total {}", sa),
+        8 => format!("at {} {}", sa, r.below(NIDX as u64 + 2)),
+        9 => format!("minmax {}", sb),
+        10 => format!("cmp {} {}", sa, sb),
+        11 => format!("leq {} {}", sa, sb),
+        _ => format!("neg {}", sa),
+    };
+    format!("mdeg {} {}", if signed { "i" } else { "u" }, body)
+}
+
+// ---------- HPoly cases ----------
+fn gen_hp_case(r: &mut Rng) -> String {
+    let rt = *r.pick(&RINGS);
+    let val = |r: &mut Rng, deg: u64| -> String {
+        let c = match r.below(6) {
+            0 => c_int(rt, 0),
+            1 => c_int(rt, 1),
+            _ => gen_coef(r, rt),
+        };
+        format!("{}@{}", deg, c)
+    };
+    let da = r.below(7);
+    let db = if r.chance(3, 5) { da } else { r.below(7) };
+    let a = val(r, da);
+    let b = match r.below(6) {
+        // the negative / for F3 a complement: sums reaching zero
+        0 => {
+            let (_, c) = a.split_once('@').unwrap();
+            format!("{}@{}", db, c_neg(rt, c))
+        }
+        1 => a.clone(),
+        _ => val(r, db),
+    };
+    let body = match r.below(10) {
+        0 | 1 | 2 => format!("add {} {}", a, b),
+        3 | 4 => format!("sub {} {}", a, b),
+        5 => format!("neg {}", a),
+        6 => {
+            let c = match r.below(4) {
+                0 => c_int(rt, 1),
+                1 => c_int(rt, 0),
+                _ => gen_coef(r, rt),
+            };
+            format!("smul {} {}", a, c)
+        }
+        7 => format!("mul {} {}", a, b),
+        8 => format!("eq {} {}", a, b),
+        _ => format!("obs {}", a),
+    };
+    format!("hp {} {}", rt.tag(), body)
+}
+
+// ---------- fixed corpus ----------
+const CORPUS: &[&str] = &[
+    "prog Zi u1 3 set 0 1@1+0@1 set 1 1@1+0@-1 mul 2 0 1 sub 2 2 2 pow 2 0 3 ev 2 2 eq 0 1 coef 2 2 inv 0 unit 0 nunit 1",
+    "prog Qi in 2 set 0 0^1,2^-3@1/2+-@3/6+0^0@1/2 smul 1 0 2/1 mul 1 1 0 ltf 1 0 ltf 1 2",
+    "prog Zi fr 2 set 0 5@2+7@3+8@-1 mapg 1 0 2 filt 1 0 5 appl 1 0 1 lmul 1 0 0",
+    "prog Zi u1 2 set 0 1@3+2@0+1@-3 asmono 0 set 1 4@1 asmono 1 unit 1 inv 1 set 1 0@-1 unit 1 inv 1 nunit 1 eq 0 1",
+    "prog Zb u2 3 set 0 1,0@12345678901234567890123+0,1@-1 mul 1 0 0 lmul 2 0 0 eq 1 2 ev 1 2,-3 neg 2 1 add 2 2 1 eq 2 0",
+    "prog Zb i1 2 set 0 -1@1+1@1 pow 1 0 4 coef 1 0 coef 1 -4 unit 0 asmono 1 nunit 1",
+    "prog Qi u1 3 set 0 0@2/4+1@-3/3+1@1/1 set 1 0@2/1 mul 2 0 1 inv 1 unit 0 nunit 0 smul 2 2 1/2 eq 2 0",
+    "prog Qb i2 3 set 0 1,-1@123456789012345678901/7+0,0@0/5 set 1 -1,1@7/123456789012345678901 mul 2 0 1 asmono 2 inv 0 inv 2 sub 2 2 2",
+    "prog F3 u1 3 set 0 1@1+1@1+1@1+0@2 add 1 0 0 add 1 1 0 eq 1 2 set 1 1@1+0@1 pow 2 1 3 inv 0 nunit 0 unit 0",
+    "prog F3 u3 2 set 0 1,0,0@4+0,1,0@-1+0,0,1@3 pow 1 0 3 coef 1 3,0,0 coef 1 0,0,3 smul 1 1 2 smul 1 1 2 eq 1 0",
+    "prog Gi u1 3 set 0 1@1:0+0@0:1 set 1 1@1:0+0@0:-1 mul 2 0 1 coef 2 1 coef 2 0 smul 2 2 0:1 asmono 2",
+    "prog Gb i3 2 set 0 1,-1,0@12345678901234567890:1+0,0,0@0:0 mul 1 0 0 lmul 1 1 0 neg 1 1 sub 1 1 1 eq 1 0",
+    "prog Zi un 3 set 0 0^1,1^0@2+1^0,0^1@-2+3^2@5 set 1 0^5,0^1@1+-@1 mul 2 0 1 ltf 2 0 ltf 2 3 ltf 2 4 asmono 0 coef 2 0^1,3^2 pow 2 1 3 ltf 2 0",
+    "prog Zi in 2 set 0 0^-1@1 set 1 0^1@1 mul 1 0 1 asmono 1 inv 0 unit 0 ltf 0 0 ltf 1 0",
+    "prog Zi i3 2 set 0 1,-1,0@1+-1,1,0@1+0,0,0@-2 pow 1 0 2 coef 1 0,0,0 nunit 1 sub 1 1 1",
+    "prog Zi u3 2 set 0 1,2,3@2+0,0,0@-7 ev 0 2,1,-1 ev 0 0,0,0 mul 1 0 0 ev 1 1,1,1",
+    "prog Zi i2 2 set 0 -1,-1@3 inv 0 unit 0 set 0 -1,-1@-1 inv 0 unit 0 nunit 0 asmono 0",
+    "prog Zi u2 2 set 0 0 mul 1 0 0 pow 1 0 0 pow 1 0 1 asmono 1 inv 1 unit 1 nunit 0 eq 0 1 lmul 1 0 1",
+    "prog F3 fr 3 set 0 1@1+1@1+1@1+2@2 set 1 2@1 add 2 0 1 eq 2 0 sub 2 0 1 smul 2 2 3 lmul 2 0 1 mapg 2 0 2 filt 2 0 2 appl 2 0 0 asmono 1 coef 0 2",
+    "prog Qi fr 2 set 0 -4@1/2+-3@-1/2+7@0/3 mapg 1 0 2 asmono 1 filt 1 0 3 appl 1 0 -2 neg 1 1 smul 1 1 -2/4",
+    "prog Gi fr 2 set 0 0@1:1+1@-1:-1 mapg 1 0 2 eq 1 0 appl 1 0 1 lmul 1 1 0",
+    "prog Zb fr 2 set 0 3@99999999999999999999999+3@-99999999999999999999999+4@1 asmono 0 lmul 1 0 0 asmono 1",
+    "prog Qb un 2 set 0 2^3,2^0@5/10+2^3@-1/2+-@4/2 asmono 0 nunit 0 inv 0 unit 0",
+    "prog Gb u1 2 set 0 2@0:1 mul 1 0 0 mul 1 1 1 asmono 1 coef 1 8",
+    "mono u1 mk 5", "mono u1 mul 3 4", "mono u1 div 3 4", "mono u1 div 4 3", "mono i1 div 3 4", "mono i1 inv -3", "mono u1 inv 0",
+    "mono u1 inv 2", "mono u1 cmp 2 3", "mono i1 cmp -2 -3", "mono u1 divides 2 3", "mono u1 divides 3 2", "mono i1 divides 3 2",
+    "mono u2 mk 0,0", "mono u2 isone 0,0", "mono u2 isone 0,1", "mono u2 cmp 2,1 1,2", "mono u2 cmp 0,2 1,0", "mono i2 cmp 0,2 1,0",
+    "mono u2 total 2,5", "mono u2 degfor 2,5 1", "mono i2 inv 1,-2", "mono i2 unit 1,-2", "mono u2 unit 1,0", "mono u2 div 1,2 3,4",
+    "mono u3 cmp 1,2,3 1,3,2", "mono u3 cmpmul 1,0,0 0,1,1 0,0,2", "mono i3 total 1,-2,-3", "mono i3 degfor 1,-2,-3 2",
+    "mono u3 div 3,3,3 1,2,3", "mono u3 div 3,3,3 1,2,4", "mono i3 mul 1,-1,0 -1,1,0", "mono i3 isone 0,0,0",
+    "mono un mk 0^0,1^2,1^0,3^1,3^4", "mono un mk -", "mono un mk 2^0", "mono un mul 0^1,1^2 1^1,4^3", "mono un div 0^1,1^2 1^2",
+    "mono un div 0^1,1^2 2^1", "mono in div 0^1,1^2 2^1", "mono in mul 0^1,1^-2 0^-1,1^2", "mono in isone 0^1,0^0",
+    "mono un cmpmul 0^1,1^2 0^2 3^1", "mono un cmp 5^1 0^1", "mono in cmp 0^-1 1^-1", "mono in cmp 1^-1 -", "mono un divides 0^1 0^2,1^1",
+    "mono un divides 0^1,2^1 0^2,1^1", "mono in divides 0^5 -", "mono un total 0^1,5^7", "mono un degfor 0^1,5^7 5", "mono un degfor 0^1,5^7 6",
+    "mono in inv 0^1,5^-7", "mono un inv 0^1", "mono un inv -", "mono un unit 3^0", "mono in unit 3^1",
+    "mdeg u mk 3^1,0^2,3^0", "mdeg u arr -", "mdeg u arr 0", "mdeg u arr 0,0,3,0,1", "mdeg i arr 1,0,-3", "mdeg u add 0^1 0^2,1^1",
+    "mdeg i add 0^1,1^-2 0^-1,1^2", "mdeg u sub 0^1,1^2 1^2", "mdeg u sub 0^1,1^2 2^2", "mdeg u sub 0^1 0^1", "mdeg i sub - 0^1,4^-2",
+    "mdeg i neg 0^1,4^-2", "mdeg i neg -", "mdeg u total 0^1,4^2", "mdeg i total 0^1,4^-1", "mdeg u at 0^1,4^2 4", "mdeg u at 0^1,4^2 3",
+    "mdeg i minmax 3^1,1^-2", "mdeg u minmax -", "mdeg u cmp 0^1 1^1", "mdeg u cmp 1^2 0^1", "mdeg i cmp 0^-1,1^1 -", "mdeg u cmp - -",
+    "mdeg u leq 0^1 0^1,1^1", "mdeg u leq 0^2 1^1", "mdeg i leq 0^-1 -", "mdeg i leq - 0^-1",
+    "hp Zi add 2@3 2@-3", "hp Zi add 2@3 1@3", "hp Zi add 2@0 1@3", "hp Zi add 1@3 2@0", "hp Zi sub 2@0 1@3", "hp Zi sub 2@3 1@3",
+    "hp Zi sub 2@3 2@3", "hp Zi mul 2@3 0@1", "hp Zi mul 2@3 1@1", "hp Zi mul 2@0 3@5", "hp Zi eq 2@0 5@0", "hp Zi eq 2@1 5@1", "hp Zi eq 2@1 2@1",
+    "hp Zi obs 0@1", "hp Zi obs 1@1", "hp Zi obs 3@0", "hp Zi neg 3@0", "hp Zi smul 3@2 1", "hp Zi smul 3@2 0", "hp Zb mul 3@99999999999999999999 4@-99999999999999999999",
+    "hp Qi add 1@1/2 1@2/4", "hp Qi add 1@1/2 1@-3/6", "hp Qi smul 2@2/3 3/2", "hp Qi obs 0@5/5", "hp Qb sub 0@1/3 0@1/3", "hp Qb mul 1@1/3 2@3/1",
+    "hp F3 add 1@1 1@2", "hp F3 add 1@2 2@2", "hp F3 sub 1@1 1@4", "hp F3 mul 1@2 1@2", "hp F3 obs 0@4", "hp F3 eq 1@3 2@0", "hp F3 smul 1@2 2",
+    "hp Gi add 1@1:1 1@-1:-1", "hp Gi mul 1@0:1 1@0:1", "hp Gi obs 0@1:0", "hp Gi obs 0@0:1", "hp Gb neg 2@1:-1", "hp Gb smul 2@1:-1 0:1", "hp Gi eq 1@0:0 2@0:0",
+];
+
+fn generate(r: &mut Rng, thorough: bool, emit: &mut dyn FnMut(String)) {
+    let scale = if thorough { 10 } else { 1 };
+    // 1. fixed corpus
+    for c in CORPUS {
+        emit(c.to_string());
+    }
+    // 2. every template once for every ring / key type
+    for rt in RINGS {
+        for mt in MONOS {
+            for w in 0..NTEMPLATES {
+                if let Some(c) = template(r, rt, mt, w) {
+                    emit(c);
+                }
+            }
+            emit(rand_prog(r, rt, mt));
+        }
+    }
+    // 3. random programs and random template instances
+    for _ in 0..3000 * scale {
+        let rt = *r.pick(&RINGS);
+        let mt = *r.pick(&MONOS);
+        emit(rand_prog(r, rt, mt));
+    }
+    let mut n = 0;
+    while n < 2500 * scale {
+        let rt = *r.pick(&RINGS);
+        let mt = *r.pick(&MONOS);
+        let w = if mt == MT::Fr { *r.pick(&[0u64, 1, 10, 11, 15, 17, 17]) } else { r.below(NTEMPLATES) };
+        if let Some(c) = template(r, rt, mt, w) {
+            emit(c);
+            n += 1;
+        }
+    }
+    // 4. monomials, MultiDeg, HPoly
+    for _ in 0..15000 * scale {
+        emit(gen_mono_case(r));
+    }
+    for _ in 0..10000 * scale {
+        emit(gen_mdeg_case(r));
+    }
+    for _ in 0..3000 * scale {
+        emit(gen_hp_case(r));
+    }
+}
 
 fn main() {
     quiet_panics();
@@ -1533,5 +2272,3 @@ fn main() {
         }
     }
 }
-
-fn generate(_r: &mut Rng, _thorough: bool, _emit: &mut dyn FnMut(String)) {}
